@@ -416,7 +416,9 @@ class CallMixin:
             return self.mk("BagOther", (recv,), name, site)
         if recv.op == "BagMap" and name == "compute":
             self.effect("dask-compute", site, st, fr, node=recv, kwargs=sorted(kw))
-            return self.mk("ListOf", (recv.args[1],), None, site)
+            lo = self.mk("ListOf", (recv.args[1],), None, site)
+            lo.extra = {"bag": recv}
+            return lo
         args = [recv] + [self.freeze(self.res(p, st), st) for p in pos]
         kwn = tuple(sorted(k for k in kw if k != "**"))
         args += [self.freeze(self.res(kw[k], st), st) for k in kwn]
@@ -476,13 +478,14 @@ class CallMixin:
                 if inner.op == "ListOf":
                     el = inner.args[0]
                     n = self.seq_len(el)
-                    if n is not None:
-                        return self.mk("Tuple", [self.mk("ListOf", (self.elem(el, i),), "col", site)
-                                                 for i in range(n)], None, site)
-                    n2 = self._phi_tuple_len(el)
+                    n2 = n if n is not None else self._phi_tuple_len(el)
                     if n2 is not None:
-                        return self.mk("Tuple", [self.mk("ListOf", (self.elem(el, i),), "col", site)
-                                                 for i in range(n2)], None, site)
+                        cols = []
+                        for i in range(n2):
+                            c = self.mk("ListOf", (self.elem(el, i),), "col", site)
+                            c.extra = dict(inner.extra or {})
+                            cols.append(c)
+                        return self.mk("Tuple", cols, None, site)
                 return self.mk("ZipStar", (inner,), None, site)
             return self.mk("Zip", P, None, site)
         if q == "builtins.enumerate" and P:
